@@ -256,9 +256,8 @@ func (e *vEnv) dropIdleEntities() {
 }
 
 func (e *vEnv) Create(req *request.CreateRequest) (*request.CreateResponse, error) {
-	isMilvusEmpty := req.MilvusConnectParam.URI == "" && req.MilvusConnectParam.Host == "" && req.MilvusConnectParam.Port <= 0
-	if !(isMilvusEmpty && req.KafkaConnectParam.Address == "") {
-		e.ensureEntity(getTaskUniqueIDFromReq(req))
+	if uKey := safeUKey(req); uKey != "" {
+		e.ensureEntity(uKey)
 	}
 	resp, err := e.cdc.Create(req)
 	e.dropIdleEntities()
@@ -383,3 +382,13 @@ func (nopReplicateMeta) GetTaskDropPartitionMsg(ctx context.Context, taskID stri
 func (nopReplicateMeta) RemoveTaskMsg(ctx context.Context, taskID string, msgID string) error { return nil }
 
 var _ = util.DefaultDbName
+
+// safeUKey: the target key of a request, "" when the request names no usable target (validation rejects it)
+func safeUKey(req *request.CreateRequest) (k string) {
+	defer func() {
+		if recover() != nil {
+			k = ""
+		}
+	}()
+	return getTaskUniqueIDFromReq(req)
+}
